@@ -792,3 +792,80 @@ Example C16_resolve_scheme_kw_nonvacuous :
   = Ok ([98; 108; 97; 99; 107]%Z :: tl colourblind_friendly_scheme) /\
   ustr_width colourblind_friendly_scheme = 7%nat.
 Proof. split; vm_compute; reflexivity. Qed.
+
+(* ---- WHICH of the nine translates are drawn, explicitly (Proofs/EdgePiecesFacts.v): an edge inside the
+   cell is drawn once, as itself; an edge stored with crossing (1,0) (unwrapped start point beyond x = 0)
+   is drawn as exactly its two halves, the translates (0,0) and (1,0), each once; likewise the other three
+   directions.  (Edges crossing two cell lines — three translates — are covered in measure by
+   C16_drawn_in_full / C16_plot_edges_total_length.) ---- *)
+From Koala Require Import Proofs.EdgePiecesFacts.
+Open Scope Q_scope.
+
+Theorem C16_invisible_outside : forall (s : seg) (xaxis : bool),
+  (1 < coord xaxis (seg_start s) /\ 1 < coord xaxis (seg_end s)) \/
+  (coord xaxis (seg_start s) < 0 /\ coord xaxis (seg_end s) < 0) ->
+  visible s = false.
+Proof. exact invisible_outside. Qed.
+Print Assumptions C16_invisible_outside.
+
+Theorem C16_inner_edge_drawn_once : forall s : seg,
+  open01 (px (seg_start s)) -> open01 (py (seg_start s)) -> open01 (px (seg_end s)) -> open01 (py (seg_end s)) ->
+  filter (fun d => visible (seg_translate s (zpoint d))) nine = [(0, 0)%Z].
+Proof. exact inner_edge_drawn_once. Qed.
+Print Assumptions C16_inner_edge_drawn_once.
+
+Theorem C16_crossing_edge_two_halves : forall s : seg,
+  -(1) < px (seg_start s) -> px (seg_start s) < 0 -> open01 (py (seg_start s)) ->
+  open01 (px (seg_end s)) -> open01 (py (seg_end s)) ->
+  filter (fun d => visible (seg_translate s (zpoint d))) nine = [(0, 0)%Z; (1, 0)%Z].
+Proof. exact crossing_edge_two_halves. Qed.
+Print Assumptions C16_crossing_edge_two_halves.
+
+(* the other three directions: crossing (-1,0), (0,1), (0,-1) *)
+Theorem C16_crossing_edge_two_halves_xhi : forall s : seg,
+  1 < px (seg_start s) -> px (seg_start s) < 2 -> open01 (py (seg_start s)) ->
+  open01 (px (seg_end s)) -> open01 (py (seg_end s)) ->
+  filter (fun d => visible (seg_translate s (zpoint d))) nine = [(-1, 0)%Z; (0, 0)%Z].
+Proof. exact crossing_edge_two_halves_xhi. Qed.
+Print Assumptions C16_crossing_edge_two_halves_xhi.
+
+Theorem C16_crossing_edge_two_halves_ylo : forall s : seg,
+  open01 (px (seg_start s)) -> -(1) < py (seg_start s) -> py (seg_start s) < 0 ->
+  open01 (px (seg_end s)) -> open01 (py (seg_end s)) ->
+  filter (fun d => visible (seg_translate s (zpoint d))) nine = [(0, 0)%Z; (0, 1)%Z].
+Proof. exact crossing_edge_two_halves_ylo. Qed.
+Print Assumptions C16_crossing_edge_two_halves_ylo.
+
+Theorem C16_crossing_edge_two_halves_yhi : forall s : seg,
+  open01 (px (seg_start s)) -> 1 < py (seg_start s) -> py (seg_start s) < 2 ->
+  open01 (px (seg_end s)) -> open01 (py (seg_end s)) ->
+  filter (fun d => visible (seg_translate s (zpoint d))) nine = [(0, -1)%Z; (0, 0)%Z].
+Proof. exact crossing_edge_two_halves_yhi. Qed.
+Print Assumptions C16_crossing_edge_two_halves_yhi.
+
+(* the same as entries of plot_edges' drawn list (C16_plot_edges_each_once) *)
+Theorem C16_inner_edge_one_piece : forall (C : Type) (L : plat) (icd : nat * (C * Z)),
+  let s := edge_seg L (fst icd) in
+  open01 (px (seg_start s)) -> open01 (py (seg_start s)) -> open01 (px (seg_end s)) -> open01 (py (seg_end s)) ->
+  pieces_of L icd = [(seg_translate s (zpoint (0, 0)%Z), snd icd)].
+Proof. exact @inner_edge_one_piece. Qed.
+Print Assumptions C16_inner_edge_one_piece.
+
+Theorem C16_crossing_edge_two_pieces : forall (C : Type) (L : plat) (icd : nat * (C * Z)),
+  let s := edge_seg L (fst icd) in
+  -(1) < px (seg_start s) -> px (seg_start s) < 0 -> open01 (py (seg_start s)) ->
+  open01 (px (seg_end s)) -> open01 (py (seg_end s)) ->
+  pieces_of L icd = [(seg_translate s (zpoint (0, 0)%Z), snd icd); (seg_translate s (zpoint (1, 0)%Z), snd icd)].
+Proof. exact @crossing_edge_two_pieces. Qed.
+Print Assumptions C16_crossing_edge_two_pieces.
+
+(* non-vacuity: ex_seg (the only edge of ex_plat) satisfies the hypotheses of the crossing case *)
+Example C16_crossing_edge_nonvacuous :
+  -(1) < px (seg_start ex_seg) /\ px (seg_start ex_seg) < 0 /\ open01 (py (seg_start ex_seg)) /\
+  open01 (px (seg_end ex_seg)) /\ open01 (py (seg_end ex_seg)) /\
+  open01 (px (seg_start ((1#4, 1#4), (1#2, 3#4)))) /\
+  filter (fun d => visible (seg_translate ex_seg (zpoint d))) nine = [(0, 0)%Z; (1, 0)%Z].
+Proof.
+  unfold ex_seg, open01, seg_start, seg_end, px, py. cbn [fst snd].
+  repeat split; try lra.
+Qed.
